@@ -191,6 +191,7 @@ func runC14(c *mon.Ctx) {
 			c14Load(c, sr, sc)
 		}
 	}
+	c14RedactedRestrictedJoins(c, r.Fork("restricted-joins"), versions)
 	c.Floor("state_responses", 200)
 	c.Floor("state_responses_with_dropped_events", 50)
 	c.Floor("send_join_checks", 20)
@@ -469,6 +470,41 @@ func c14StateResponses(c *mon.Ctx, r *gen.Rand, sc *simScenario, other *simScena
 					}
 				}
 			})
+		}
+	}
+	// ... and the other way round: the state lists the hash-broken (redacted) copy, the intact event stands among the
+	// auth events. The copy in the state is judged on what IT says - it is returned or dropped exactly as it is when the
+	// intact copy is not in the response at all
+	{
+		// (first the events whose redacted form their own auth events refuse: there the two copies differ in verdict)
+		var victims []gmsl.PDU
+		for _, p := range state {
+			if p.Type() == "m.room.create" {
+				continue
+			}
+			rv := ref.Redact(sc.s.t.Redaction, ref.MustParse(p.JSON()))
+			rp, err := sc.s.impl.NewEventFromTrustedJSONWithEventID(p.EventID(), gen.Plain().Bytes(rv), true)
+			if err != nil {
+				continue
+			}
+			var cited []gmsl.PDU
+			for _, id := range p.AuthEventIDs() {
+				if a := sc.s.all[id]; a != nil {
+					cited = append(cited, a)
+				}
+			}
+			if allowedBy(p, cited) && !allowedBy(rp, cited) {
+				victims = append(victims, p)
+				c.Count("state_events_whose_redacted_form_is_refused")
+			}
+		}
+		for _, p := range gen.Shuffled(r, state) {
+			if len(victims) < 3 && p.Type() != "m.room.create" {
+				victims = append(victims, p)
+			}
+		}
+		for _, victim := range victims {
+			c14RedactedCopyInState(c, r, sc.s, state, auth, victim)
 		}
 	}
 	// whole-response faults
@@ -1311,4 +1347,114 @@ func c14Load(c *mon.Ctx, r *gen.Rand, sc *simScenario) {
 			}
 		}
 	})
+}
+
+// c14RedactedCopyInState: the state lists the hash-broken (redacted) copy of victim, the intact event stands among the
+// auth events; the copy in the state is returned or dropped exactly as when the intact copy is not in the response.
+func c14RedactedCopyInState(c *mon.Ctx, r *gen.Rand, s *sim, state, auth []gmsl.PDU, victim gmsl.PDU) {
+		tv := ref.MustParse(victim.JSON())
+		tv.Get("content").Set("zz_added_after_signing", ref.I(1))
+		broken := gen.Plain().Bytes(tv)
+		bp, err := s.impl.NewEventFromUntrustedJSON(broken)
+		if err != nil || !bp.Redacted() || bp.EventID() != victim.EventID() {
+			return
+		}
+		var without, with rawResp
+		for _, p := range state {
+			if p.EventID() == victim.EventID() {
+				without.state = append(without.state, broken)
+			} else {
+				without.state = append(without.state, p.JSON())
+			}
+		}
+		for _, p := range auth {
+			if p.EventID() != victim.EventID() {
+				without.auth = append(without.auth, p.JSON())
+			}
+		}
+		with.state = without.state
+		with.auth = append(append(gmsl.EventJSONs{}, without.auth...), victim.JSON())
+		if r.Chance(0.5) {
+			with.auth = append(gmsl.EventJSONs{victim.JSON()}, without.auth...)
+		}
+		c.Case("state-response:redacted-copy-in-state-intact-among-auth:"+string(s.ver), map[string]any{"version": s.ver, "victim": victim.Type(), "victim_id": victim.EventID()}, func() {
+			c.Nontrivial(fmt.Sprintf("%s|redacted-copy-in-state|%s", s.ver, victim.EventID()))
+			var asked []string
+			var base, got []gmsl.PDU
+			var err0, err1 error
+			site, msg, pan := mon.Guard(func() {
+				_, base, err0 = gmsl.CheckStateResponse(context.Background(), without, s.ver, c14ring, mkProvider(provNothing, nil, &asked), userIDForSender)
+				_, got, err1 = gmsl.CheckStateResponse(context.Background(), with, s.ver, c14ring, mkProvider(provNothing, nil, &asked), userIDForSender)
+			})
+			if pan {
+				c.Failf("stateresponse:panic:"+site, "CheckStateResponse panics: %s", msg)
+				return
+			}
+			c.Count("state_responses")
+			c.Count("state_responses_with_a_redacted_copy_in_state")
+			if err0 != nil || err1 != nil {
+				c.Failf("stateresponse:unexpected-error", "CheckStateResponse fails: %v / %v", err0, err1)
+				return
+			}
+			has := func(ps []gmsl.PDU) bool {
+				for _, p := range ps {
+					if p.EventID() == victim.EventID() {
+						return true
+					}
+				}
+				return false
+			}
+			// (when the victim is an auth event of other state events, THEIR verdicts may differ: the intact copy is
+			// the better auth event. The victim's own copy in the state cites the same auth events either way.)
+			if has(base) != has(got) {
+				c.Failf("stateresponse:redacted-state-copy-judged-by-the-intact-copy", "the state lists the redacted copy of %s %s: returned=%v when the intact event is among the auth events, returned=%v when it is not in the response", victim.Type(), victim.EventID(), has(got), has(base))
+			}
+			for _, p := range got {
+				if p.EventID() == victim.EventID() && !p.Redacted() {
+					c.Failf("stateresponse:returns-intact-copy-as-state", "the state lists the redacted copy of %s; the intact copy from the auth events comes back as state", victim.EventID())
+				}
+			}
+		})
+}
+
+// c14RedactedRestrictedJoins: directed rooms in which a join was authorised by a resident user and the room version's
+// redaction drops the authoriser from the content: the redacted copy of that join is refused by the very auth events
+// that allow the intact one, so the two copies of one event ID must not share a verdict.
+func c14RedactedRestrictedJoins(c *mon.Ctx, r *gen.Rand, versions []gmsl.RoomVersion) {
+	for _, ver := range versions {
+		t := ref.Traits(string(ver))
+		if t == nil || !t.Restricted || ver == gmsl.RoomVersionPseudoIDs {
+			continue
+		}
+		for k := 0; k < c.Scale(16, 160); k++ {
+			s, trunk := newSim(r.Fork("restricted"), ver)
+			creator := s.users[0]
+			if _, ok := s.propose(trunk, "m.room.join_rules", strp(""), creator, ref.O("join_rule", ref.S("restricted"), "allow", ref.A(ref.O("type", ref.S("m.room_membership"), "room_id", ref.S("!elsewhere:origin.example")))), false); !ok {
+				c.Count("restricted_join_scenarios_skipped")
+				continue
+			}
+			var victim gmsl.PDU
+			for _, u := range s.users[1:] {
+				if m := s.membership(trunk, u); m == "join" || m == "ban" || m == "invite" {
+					continue
+				}
+				if p, ok := s.propose(trunk, "m.room.member", strp(u), u, ref.O("membership", ref.S("join"), "join_authorised_via_users_server", ref.S(creator)), false); ok {
+					victim = p
+					break
+				}
+			}
+			if victim == nil {
+				c.Count("restricted_join_scenarios_skipped")
+				continue
+			}
+			rv := ref.Redact(t.Redaction, ref.MustParse(victim.JSON()))
+			if rv.Get("content").Get("join_authorised_via_users_server") != nil {
+				c.Count("restricted_join_scenarios_authoriser_survives_redaction")
+				continue
+			}
+			state := trunk.list()
+			c.Count("restricted_join_scenarios")
+			c14RedactedCopyInState(c, r, s, state, authClosure(s.all, state), victim)
+		}
+	}
 }
